@@ -8,13 +8,54 @@ from common import rng, load_known_findings, hexs
 from pyscript import Op, parse_op
 
 
+def apply_edits(db, edits):
+    """in-place renames through the public attributes: the edited database is a database built through the public
+    classes, so it must round-trip as well"""
+    for e in edits:
+        k = e[0]
+        try:
+            if k == 'tname':
+                db.tables[e[1] % len(db.tables)].name = e[2]
+            elif k == 'tschema':
+                db.tables[e[1] % len(db.tables)].schema = e[2]
+            elif k == 'talias':
+                db.tables[e[1] % len(db.tables)].alias = e[2]
+            elif k == 'cname':
+                t = db.tables[e[1] % len(db.tables)]
+                t.columns[e[2] % len(t.columns)].name = e[3]
+            elif k == 'ename':
+                db.enums[e[1] % len(db.enums)].name = e[2]
+            elif k == 'gname':
+                db.table_groups[e[1] % len(db.table_groups)].name = e[2]
+        except ZeroDivisionError:
+            pass
+
+
 def roundtrip(job):
     """returns None, or (clause, detail)"""
-    text, allow, cycles = job
+    text, allow, cycles = job[:3]
+    variant = job[3] if len(job) > 3 else None
     k, db = prop_parse.parse_impl(text, allow)
     if k != 'ok':
         return ('generated document rejected', db)
-    c0 = docgen.content(db)
+    if variant and variant[0] in ('deepcopy', 'pickle'):
+        import copy, gc, pickle
+        try:
+            dbc = copy.deepcopy(db) if variant[0] == 'deepcopy' else pickle.loads(pickle.dumps(db))
+        except RecursionError:
+            dbc = db
+        except Exception as e:   # noqa
+            return ('%s of the parsed database raised' % variant[0], repr(e))
+        if dbc is not db:
+            del db
+            gc.collect()
+            db = dbc
+    elif variant and variant[0] == 'edits':
+        apply_edits(db, variant[1])
+    try:
+        c0 = docgen.content(db)
+    except Exception as e:   # noqa
+        return ('the database cannot be walked (tables of reference columns, notes, items)', repr(e))
     prev_text = None
     for i in range(cycles):
         try:
@@ -52,16 +93,33 @@ def run(v, tier, st, pr):
         text, _ = docgen.render_doc(A, docgen.Style(r, level=r.choice([0, 1, 1])), allow, interleave=not indomain)
         if indomain:
             docs.append((text, allow, cycles))
+            if i % 8 == 1:
+                # the same round trip for a deep copy / pickle round trip of the parsed database (original dropped and collected)
+                docs.append((text, allow, cycles, ('deepcopy' if i % 16 == 1 else 'pickle',)))
+            elif i % 8 == 5:
+                # ... and for the parsed database after renames through the public attributes (fresh bare names: inside the domain)
+                eds = []
+                for k_ in range(r.randint(1, 3)):
+                    kind = r.choice(['tname', 'tname', 'tschema', 'talias', 'cname', 'ename', 'gname'])
+                    new = 'rn%d_%d' % (i, k_)
+                    if kind == 'cname':
+                        eds.append((kind, r.randint(0, 9), r.randint(0, 9), new))
+                    else:
+                        eds.append((kind, r.randint(0, 9), new))
+                docs.append((text, allow, cycles, ('edits', eds)))
         # correspondence: parse, render, parse the rendering, render again (also outside the domain: the model is faithful to the defects)
         jobs.append(([], [parse_op(0, allow, 0, 1, text), Op(81, 0), Op(91, 0, allow), Op(82), Op(81, 2)]))
         tags.append('in' if indomain else 'out')
     res = stream_script.compare(jobs, 'roundtrip', tags=tags)
     outs = prop_parse.pool_map(roundtrip, docs)
     fails = []
-    for (text, allow, _), o in zip(docs, outs):
+    for dj, o in zip(docs, outs):
+        text, allow = dj[0], dj[1]
         if o is not None:
-            fails.append({'cause': 'oracle', 'clause': o[0], 'detail': str(o[1])[:1500],
-                          'input': {'kind': 'document', 'text_hex': hexs(text), 'text': text, 'allow_properties': allow}})
+            inp = {'kind': 'document', 'text_hex': hexs(text), 'text': text, 'allow_properties': allow}
+            if len(dj) > 3:
+                inp['then'] = repr(dj[3])
+            fails.append({'cause': 'oracle', 'clause': o[0] + ((' [after %s]' % dj[3][0]) if len(dj) > 3 else ''), 'detail': str(o[1])[:1500], 'input': inp})
     # known findings: replay every witness; still failing ones are reported as known
     for f in load_known_findings()['findings']:
         if f['property'] != 'C02':
@@ -71,6 +129,7 @@ def run(v, tier, st, pr):
             v.known_finding(f['id'], f['what'])
     fails.sort(key=lambda f: len(f['input']['text']))
     v.coverage['documents_round_tripped'] = len(docs)
+    v.coverage['of_which_copies_or_edited'] = sum(1 for d in docs if len(d) > 3)
     v.coverage['cycles'] = cycles
     total = verdicts.conclude(v, pr, st, {'roundtrip': stream_script.strip(res)}, fails)
     v.coverage['evaluations'] = total
